@@ -24,6 +24,10 @@
 //! global mutex. The observation `m=` is the PHYSICAL resident map (the observer reads with the virtual
 //! clock at 0, so expired-but-uncollected entries stay visible); observer reads produce no event lines.
 //!
+//! v3: ops with an `a` prefix (`aget afetch apeek ainsert ainsertttl aremove acompute atrycompute aorinsert aclear
+//! amaint`) run the same operation on the `AsyncCache` handle under `futures_executor::block_on` on the worker
+//! thread; their call lines say `acall` instead of `call`, step lines are identical, lock kinds are `ra wa la`.
+//!
 //! Transcript: `#case <id> threads=<n> shards=<S> cap=<c|inf> policy=<p> coop=<0|1> nkeys=<K> ttl=<ns|0> tti=<ns|0> track=<0|1> strategy=<..>`,
 //! `P <tid> <ops ; ...>`, `S <decisions>`, step lines `<tid> <step> [args] => <result> [ret=..] [cur=<u64> m=<k:v,..|->]`,
 //! event lines `<tid> acq <role> <kind>` / `<tid> clock`, `X <status>`, `!monitor` lines, `#end`.
@@ -140,8 +144,10 @@ struct Th {
   /// "" (not started), "start", "op" (between two ops), "op-start" (inside an API call, no hook point
   /// reached yet) or the label of the hook point the thread is at
   last: &'static str,
-  /// words of the current op
+  /// words of the current op (async ops: the base op word, see `is_async`)
   op: Vec<String>,
+  /// the current op runs on the `AsyncCache` handle
+  is_async: bool,
   /// shard of the current `run_maintenance` iteration
   maint_sh: usize,
   /// at "compute:retry" and the cache state cannot have changed since the failed attempt
@@ -197,7 +203,7 @@ enum Ret { Opt(Option<u64>), Unit, Val(u64), Cmp(&'static str) }
 
 impl Inner {
   fn push(&mut self, t: usize, s: String) {
-    let step = !(s.starts_with("call ") || s.starts_with("acq ") || s == "clock");
+    let step = !(s.starts_with("call ") || s.starts_with("acall ") || s.starts_with("acq ") || s == "clock");
     self.log.push(Line { text: format!("{t} {s}"), obs: None, quiescent: false, step });
   }
 
@@ -207,8 +213,8 @@ impl Inner {
   fn blocked(&self, i: usize) -> bool {
     match &self.th[i].pending_acq {
       Some((role, kind)) => {
-        if let (Some(sh), "l") = (Self::role_index(role, "maint"), *kind) { matches!(self.mlock.get(sh), Some(Some(h)) if *h != i) }
-        else if let (Some(sh), "r" | "w") = (Self::role_index(role, "shard"), *kind) { self.th.iter().enumerate().any(|(j, t)| j != i && t.held_shards.contains(&sh)) }
+        if let (Some(sh), "l" | "la") = (Self::role_index(role, "maint"), *kind) { matches!(self.mlock.get(sh), Some(Some(h)) if *h != i) }
+        else if let (Some(sh), "r" | "w" | "ra" | "wa") = (Self::role_index(role, "shard"), *kind) { self.th.iter().enumerate().any(|(j, t)| j != i && t.held_shards.contains(&sh)) }
         else { false }
       }
       None => false,
@@ -397,7 +403,8 @@ impl Sched {
     g.th[me].status = Status::Running;
     if g.active && label == "maint:before_lock" {
       let sh = g.th[me].maint_sh;
-      g.push(me, format!("call maint {sh} 16 1 => -"));
+      let c = if g.th[me].is_async { "acall" } else { "call" };
+      g.push(me, format!("{c} maint {sh} 16 1 => -"));
     }
   }
 
@@ -420,7 +427,7 @@ impl Sched {
       g.th[me].pending_acq = None;
       if !g.active { return; }
       if let Some(sh) = shard { g.th[me].held_shards.push(sh); }
-      if let (Some(sh), "l") = (maint, kind) { if sh < g.mlock.len() { g.mlock[sh] = Some(me); } }
+      if let (Some(sh), "l" | "la") = (maint, kind) { if sh < g.mlock.len() { g.mlock[sh] = Some(me); } }
     }
     g.push(me, format!("acq {role} {kind}"));
   }
@@ -440,10 +447,13 @@ impl Sched {
   /// The running thread starts an API call.
   fn begin_op(&self, t: usize, w: &[&str]) {
     let mut g = self.m.lock().unwrap();
+    let (base, is_async) = base_op(w[0]);
     g.th[t].op = w.iter().map(|s| s.to_string()).collect();
+    g.th[t].op[0] = base.to_string();
+    g.th[t].is_async = is_async;
     g.th[t].last = "op-start";
     if !g.active { return; }
-    let line = match w[0] {
+    let line = match base {
       "get" | "fetch" | "hold" => format!("call get {}", w[1]),
       "peek" => format!("call peek {}", w[1]),
       "insert" => format!("call insert {} {} {}", w[1], w[2], w[3]),
@@ -455,7 +465,15 @@ impl Sched {
       "clear" => "call clear".to_string(),
       _ => return, // maint: one call per shard, logged at "maint:before_lock"; release: silent; advance: step line only
     };
-    g.push(t, format!("{line} => -"));
+    g.push(t, format!("{}{line} => -", if is_async { "a" } else { "" }));
+  }
+}
+
+/// `aget` -> ("get", true) ...: the async variant of an op runs the same operation on the `AsyncCache` handle
+fn base_op(w: &str) -> (&str, bool) {
+  match w {
+    "aget" | "afetch" | "apeek" | "ainsert" | "ainsertttl" | "aremove" | "acompute" | "atrycompute" | "aorinsert" | "aclear" | "amaint" => (&w[1..], true),
+    _ => (w, false),
   }
 }
 
@@ -582,7 +600,10 @@ fn show_obs(o: &Obs) -> String {
 }
 
 fn run_case(id: &str, cfg: &Cfg, programs: &[Vec<String>], strat: Strategy, strat_name: &str) -> Outcome {
-  let expiry = cfg.ttl > 0 || cfg.tti > 0 || programs.iter().flatten().any(|o| o.starts_with("advance") || o.starts_with("insertttl"));
+  let expiry = cfg.ttl > 0 || cfg.tti > 0 || programs.iter().flatten().any(|o| o.starts_with("advance") || o.starts_with("insertttl") || o.starts_with("ainsertttl"));
+  let has_ainsert = programs.iter().flatten().any(|o| o.starts_with("ainsert"));
+  if has_ainsert && cfg.coop { eprintln!("case {id}: async inserts would signal the (unscheduled) janitor thread when coop=1: forcing coop=0"); }
+  let cfg = &Cfg { coop: cfg.coop && !has_ainsert, ..cfg.clone() };
   let _clock_owner = if expiry { let g = EXPIRY_LOCK.lock().unwrap_or_else(|p| p.into_inner()); verif_clock::freeze_at(T0); Some(g) } else { None };
   let s_n = cfg.shards.max(1);
   let plog: Arc<Mutex<Vec<String>>> = Arc::new(Mutex::new(vec![]));
@@ -608,7 +629,7 @@ fn run_case(id: &str, cfg: &Cfg, programs: &[Vec<String>], strat: Strategy, stra
   let n = programs.len();
   let sched = Arc::new(Sched {
     m: Mutex::new(Inner {
-      th: (0..n).map(|_| Th { status: Status::Running, last: "", op: vec![], maint_sh: 0, stale: false, pending_acq: None, held_shards: vec![] }).collect(),
+      th: (0..n).map(|_| Th { status: Status::Running, last: "", op: vec![], is_async: false, maint_sh: 0, stale: false, pending_acq: None, held_shards: vec![] }).collect(),
       baton: None, log: vec![], decisions: vec![], active: true, mlock: vec![None; s_n], plog: plog.clone(), plog_mark: 0,
       last_obs: BTreeMap::new(), shards: s_n, panicked: None, exited: 0,
       rng: match &strat { Strategy::Random(s) => Rng::new(*s), _ => Rng::new(0) },
@@ -625,6 +646,8 @@ fn run_case(id: &str, cfg: &Cfg, programs: &[Vec<String>], strat: Strategy, stra
       CUR.with(|c| *c.borrow_mut() = Some((sched.clone(), t)));
       let _bail = Bail { s: sched.clone(), t };
       let mut slot: Option<Arc<u64>> = None;
+      let ac = cache.to_async();
+      use futures_executor::block_on;
       sched.arrive(t, "start", None, prog.is_empty());
       for (i, op) in prog.iter().enumerate() {
         let w: Vec<&str> = op.split_whitespace().collect();
@@ -647,6 +670,17 @@ fn run_case(id: &str, cfg: &Cfg, programs: &[Vec<String>], strat: Strategy, stra
           "orinsert" => Ret::Val(*cache.entry(k).or_insert(v, c)),
           "clear" => { cache.clear(); Ret::Unit }
           "maint" => { cache.run_maintenance(); Ret::Unit }
+          "aget" => Ret::Opt(block_on(ac.get(&k, |x| *x))),
+          "apeek" => Ret::Opt(block_on(ac.peek(&k)).map(|a| *a)),
+          "afetch" => Ret::Opt(block_on(ac.fetch(&k)).map(|a| *a)),
+          "ainsert" => { block_on(ac.insert(k, v, c)); Ret::Unit }
+          "ainsertttl" => { block_on(ac.insert_with_ttl(k, v, c, Duration::from_nanos(num(4)))); Ret::Unit }
+          "aremove" => Ret::Opt(block_on(ac.remove(&k)).map(|a| *a)),
+          "acompute" => Ret::Cmp(if block_on(ac.compute(&k, |x| *x += 1000)) { "true" } else { "none" }),
+          "atrycompute" => Ret::Cmp(match block_on(ac.try_compute(&k, |x| *x += 1000)) { Some(true) => "true", Some(false) => "false", None => "none" }),
+          "aorinsert" => Ret::Val(*block_on(async { ac.entry(k).await.or_insert(v, c) })),
+          "aclear" => { block_on(ac.clear()); Ret::Unit }
+          "amaint" => { block_on(ac.run_maintenance()); Ret::Unit }
           _ => Ret::Unit,
         };
         let last_op = i + 1 == prog.len();
@@ -706,7 +740,8 @@ fn monitors(id: &str, cfg: &Cfg, programs: &[Vec<String>], log: &[Line], final_o
   let mut wcost: HashMap<u64, u64> = HashMap::new();
   for p in programs { for op in p {
     let w: Vec<&str> = op.split_whitespace().collect();
-    if w.first() == Some(&"insert") || w.first() == Some(&"orinsert") || w.first() == Some(&"insertttl") {
+    let w0 = w.first().map(|x| base_op(x).0);
+    if w0 == Some("insert") || w0 == Some("orinsert") || w0 == Some("insertttl") {
       let g = |i: usize| w.get(i).and_then(|x| x.parse::<u64>().ok()).unwrap_or(0);
       wkey.insert(g(2), g(1)); wcost.insert(g(2), g(3));
     }
@@ -780,7 +815,7 @@ fn monitors(id: &str, cfg: &Cfg, programs: &[Vec<String>], log: &[Line], final_o
       }
     };
     match w[1] {
-      "call" => {
+      "call" | "acall" => {
         cur_op[t] = args.iter().map(|s| s.to_string()).collect();
         call_li[t] = li;
         match args.first() {
@@ -978,6 +1013,17 @@ fn gen_case(rng: &mut Rng) -> (Cfg, Vec<Vec<String>>) {
     let a = adv(rng);
     ps[t].insert(at, a);
   }
+  // ~35% of the cases mix in ops on the AsyncCache handle: every convertible op becomes its async variant with
+  // probability 1/2 (at least one does); async inserts only SIGNAL the janitor for maintenance, and the janitor
+  // thread is not under the scheduler, so such cases run with coop=0 (no signal is ever sent)
+  let mut coop = coop;
+  if rng.chance(35, 100) {
+    let convertible = |o: &str| matches!(o.split_whitespace().next(), Some("get" | "fetch" | "peek" | "insert" | "insertttl" | "remove" | "compute" | "trycompute" | "orinsert" | "clear" | "maint"));
+    let mut any = false;
+    for p in ps.iter_mut() { for o in p.iter_mut() { if convertible(o) && rng.chance(1, 2) { *o = format!("a{o}"); any = true; } } }
+    if !any { if let Some(o) = ps.iter_mut().flatten().find(|o| convertible(o)) { *o = format!("a{o}"); } }
+    if ps.iter().flatten().any(|o| o.starts_with("ainsert")) { coop = false; }
+  }
   (Cfg { shards, cap, policy, coop, nkeys, ttl, tti }, ps)
 }
 
@@ -1007,6 +1053,13 @@ fn fixed_programs() -> Vec<(Cfg, Vec<Vec<String>>)> {
     (ex(0, 2 * S), prog("insert 1 10 1 ; peek 1 ; advance 1000000000 ; get 1 || advance 1000000000")),
     (ex(2 * S, 0), prog("insert 1 10 1 || advance 2000000000 || orinsert 1 11 1 ; compute 1")),
     (ex(S, 0), prog("insert 1 10 1 ; maint ; maint || advance 1000000000 ; get 1")),
+    (c(1, None, false, 2), prog("aorinsert 1 10 1 || orinsert 1 11 1")),
+    (c(1, None, false, 2), prog("aorinsert 1 10 1 || aorinsert 1 11 1")),
+    (c(1, None, false, 2), prog("ainsert 1 10 2 ; aremove 1 || clear")),
+    (c(1, None, false, 2), prog("ainsert 1 10 2 || aclear")),
+    (ex(2 * S, 0), prog("insert 1 10 1 ; aget 1 || advance 2000000000")),
+    (c(1, Some(3), false, 3), prog("ainsert 0 10 2 ; ainsert 1 11 2 ; ainsert 2 12 2 ; amaint || aremove 0")),
+    (c(2, None, false, 2), prog("aclear || insert 0 10 1 ; insert 1 11 1")),
   ]
 }
 
